@@ -123,6 +123,30 @@ func relation(from, auth string) string {
 	return rel
 }
 
+// relRank orders relations from "nearest to the From domain" to "farthest";
+// signatures name the nearest identifier only (one cause class per witness).
+var relRank = []string{"identical", "case-variant", "parent-of-from", "subdomain-of-from", "sibling", "shares-multilabel-suffix", "public-suffix-of-from", "registered-under-from-suffix", "unrelated", "no-domain"}
+
+func nearness(id string) int {
+	rel := id[strings.Index(id, ":")+1:]
+	rel = strings.TrimSuffix(rel, "+mixedcase")
+	for i, r := range relRank {
+		if r == rel {
+			return i
+		}
+	}
+	return len(relRank)
+}
+
+func sortByNearness(ids []string) {
+	sort.SliceStable(ids, func(i, j int) bool {
+		if a, b := nearness(ids[i]), nearness(ids[j]); a != b {
+			return a < b
+		}
+		return ids[i] < ids[j]
+	})
+}
+
 // ---- inputs ----
 
 type dkimRes struct {
@@ -251,7 +275,7 @@ func reference(pt *point) expect {
 			ex.AnyTemp = true
 		}
 		if d.Value == "pass" {
-			id := "dkim:" + adkim + ":" + relation(from, d.Domain)
+			id := "dkim:" + relation(from, d.Domain)
 			ex.PassingIDs = append(ex.PassingIDs, id)
 			if alignedRef(from, d.Domain, adkim) {
 				ex.Aligned = true
@@ -263,9 +287,9 @@ func reference(pt *point) expect {
 		ex.AnyTemp = true
 	}
 	if pt.SPF.Value == "pass" {
-		id := "spf:" + aspf + ":" + relation(from, spfIdentity(pt.SPF))
+		id := "spf-mailfrom:" + relation(from, spfIdentity(pt.SPF))
 		if pt.SPF.Rep == 1 {
-			id += ":helo-identity"
+			id = "spf-helo:" + relation(from, spfIdentity(pt.SPF))
 		}
 		ex.PassingIDs = append(ex.PassingIDs, id)
 		if alignedRef(from, spfIdentity(pt.SPF), aspf) {
@@ -273,8 +297,8 @@ func reference(pt *point) expect {
 			ex.AlignedIDs = append(ex.AlignedIDs, id)
 		}
 	}
-	sort.Strings(ex.PassingIDs)
-	sort.Strings(ex.AlignedIDs)
+	sortByNearness(ex.PassingIDs)
+	sortByNearness(ex.AlignedIDs)
 	if !ex.Aligned {
 		for _, d := range pt.DKIM {
 			if d.Value == "temperror" && alignedRef(from, d.Domain, adkim) {
